@@ -99,5 +99,7 @@ package execution
 //@   ensures [hit_never_executes] r == dag.CacheHit && err == nil ==> target.mainRan == old(target.mainRan)
 //@   ensures [minimal_hit_sets_output_hash] r == dag.CacheHit && err == nil && e.loadOutputsMode == config.LoadOutputsMinimal ==> target.OutputHash == lastLoadOutputHash
 //@   ensures [miss_success_executed] r != dag.CacheHit && err == nil ==> (target.Command == "" || (target.mainRan && target.mainOK)) && target.checksOK && target.resultWritten
+//@   ensures [taint_consumed] r != dag.CacheHit && err == nil && old(has(bstored, "taint/" + "//" + target.Label.Package + ":" + target.Label.Name)) ==>
+//@        target.clearIssued || (taintLookups > old(taintLookups) && lastTaintErr)
 //@   before_call LoadDependencyOutputs#1 [exec_only_if] lastLoadNil || lastIsTainted || inSlice(target.Tags, "no-cache") || !e.enableCache || !target.checksOK || (target.restoreTried && !target.restored)
 //@   before_call executeTarget#1 [exec_only_if] e.loadOutputsMode == config.LoadOutputsMinimal || lastLoadNil || lastIsTainted || inSlice(target.Tags, "no-cache") || !e.enableCache || !target.checksOK || (target.restoreTried && !target.restored)
